@@ -315,7 +315,8 @@ def r13_4(ctx):
     """R13.4 regenerating an unchanged configuration produces the same text: (a) alias tables keep insertion order (no
     hash-ordered container between the rename files and the generated text, C07 R07.7); (b) the default marker of a line is
     decided from the freshly evaluated value (C03 R03.6), so two consecutive writes of one configuration agree; (c) the
-    backup name is the destination name plus `.old` (appended, not a replaced suffix)."""
+    backup name is the destination name plus `.old` (appended, not a replaced suffix); (d) no generator iterates a set
+    attribute directly (hash order differs between runs: kconfgen's `report` format)."""
     from . import c03, c07
     before = len(ctx.instances)
     c07.r07_7(ctx)
@@ -329,6 +330,9 @@ def r13_4(ctx):
     dropped = {i.construct for i in ctx.instances[before:]} - {i.construct for i in keep}
     ctx.instances[before:] = keep
     ctx.findings[:] = [f for f in ctx.findings if not (f.rule == ctx._rule and f.construct in dropped)]
+    from .common import no_unordered_iteration
+    no_unordered_iteration(ctx, ["esp_kconfiglib.report", "esp_kconfiglib.deprecated", "kconfgen.core"],
+                           "the generated report / output text of an unchanged configuration differs from the previous run and the destination is rewritten")
     repo = ctx.repo
     s = repo.func(f"{CORE}:_save_old")
     path = s.node.args.args[0].arg
